@@ -896,6 +896,8 @@ func normKey(cell string) string {
 	return cell
 }
 
+var scribble = "\x00scribbled"
+
 func makeView(f qframe.QFrame, col, typ string) *View {
 	switch typ {
 	case "int":
@@ -905,9 +907,16 @@ func makeView(f qframe.QFrame, col, typ string) *View {
 		}
 		return &View{Typ: typ, Len: v.Len, Item: func(i int) string { return fmt.Sprint(v.ItemAt(i)) }, Slice: func() []string {
 			var out []string
-			for _, x := range v.Slice() {
+			sl := v.Slice()
+			for _, x := range sl {
 				out = append(out, fmt.Sprint(x))
 			}
+			// the slice is the caller's ("a copy of the column data"): the
+			// caller overwrites and extends it
+			for i := range sl {
+				sl[i] = ^sl[i]
+			}
+			_ = append(sl, 1, 2, 3)
 			return out
 		}}
 	case "float":
@@ -917,9 +926,14 @@ func makeView(f qframe.QFrame, col, typ string) *View {
 		}
 		return &View{Typ: typ, Len: v.Len, Item: func(i int) string { return obs.FloatText(v.ItemAt(i)) }, Slice: func() []string {
 			var out []string
-			for _, x := range v.Slice() {
+			sl := v.Slice()
+			for _, x := range sl {
 				out = append(out, obs.FloatText(x))
 			}
+			for i := range sl {
+				sl[i] = -1 - sl[i]
+			}
+			_ = append(sl, 1, 2, 3)
 			return out
 		}}
 	case "bool":
@@ -929,9 +943,14 @@ func makeView(f qframe.QFrame, col, typ string) *View {
 		}
 		return &View{Typ: typ, Len: v.Len, Item: func(i int) string { return fmt.Sprint(v.ItemAt(i)) }, Slice: func() []string {
 			var out []string
-			for _, x := range v.Slice() {
+			sl := v.Slice()
+			for _, x := range sl {
 				out = append(out, fmt.Sprint(x))
 			}
+			for i := range sl {
+				sl[i] = !sl[i]
+			}
+			_ = append(sl, true, false)
 			return out
 		}}
 	case "string":
@@ -941,9 +960,14 @@ func makeView(f qframe.QFrame, col, typ string) *View {
 		}
 		return &View{Typ: typ, Len: v.Len, Item: func(i int) string { return obs.StrText(v.ItemAt(i)) }, Slice: func() []string {
 			var out []string
-			for _, x := range v.Slice() {
+			sl := v.Slice()
+			for _, x := range sl {
 				out = append(out, obs.StrText(x))
 			}
+			for i := range sl {
+				sl[i] = &scribble
+			}
+			_ = append(sl, &scribble)
 			return out
 		}}
 	case "enum":
@@ -953,9 +977,14 @@ func makeView(f qframe.QFrame, col, typ string) *View {
 		}
 		return &View{Typ: typ, Len: v.Len, Item: func(i int) string { return obs.StrText(v.ItemAt(i)) }, Slice: func() []string {
 			var out []string
-			for _, x := range v.Slice() {
+			sl := v.Slice()
+			for _, x := range sl {
 				out = append(out, obs.StrText(x))
 			}
+			for i := range sl {
+				sl[i] = &scribble
+			}
+			_ = append(sl, &scribble)
 			return out
 		}}
 	}
